@@ -256,11 +256,41 @@ impl ScalingPoints {
         // per-cone point index shared across cones: (dir, delta, mag) for symmetric, lattice id for nonsymmetric
         36
     }
+    fn nhist(&self) -> u64 {
+        // identity scaling exists only for symmetric cones
+        if self.cones.iter().all(|c| matches!(c, ConeSpec::Zero(_) | ConeSpec::NN(_) | ConeSpec::SOC(_) | ConeSpec::PSD(_))) {
+            6
+        } else {
+            3
+        }
+    }
+    /// history of scaling operations applied to the same (cones, kkt) pair; the last one is judged
+    fn history(&self, id: u64) -> Vec<Option<(Vec<f64>, Vec<f64>, f64)>> {
+        let h = id / (self.npts() * self.npts() * 3);
+        let a = self.points_at(id, false);
+        let b = self.points_at(id, true);
+        match h {
+            0 => vec![Some(a)],
+            1 => vec![Some(b), Some(a)],
+            2 => vec![Some(a.clone()), Some(b), Some(a)],
+            3 => vec![None],
+            4 => vec![Some(a), None],
+            _ => vec![Some(b), None, Some(a)],
+        }
+    }
     fn points(&self, id: u64) -> (Vec<f64>, Vec<f64>, f64) {
+        self.points_at(id, false)
+    }
+    fn points_at(&self, id: u64, other: bool) -> (Vec<f64>, Vec<f64>, f64) {
         let mut d = Digits(id);
-        let pi = d.take(self.npts());
-        let qi = d.take(self.npts());
+        let mut pi = d.take(self.npts());
+        let mut qi = d.take(self.npts());
         let mu = *d.pick(&[1.0, 1e-4, 1e2]);
+        if other {
+            // a different scaling point of the same family (used as the earlier state in histories)
+            std::mem::swap(&mut pi, &mut qi);
+            pi = (pi + 7) % self.npts();
+        }
         let (mut s, mut z) = (vec![], vec![]);
         for (ci, c) in self.cones.iter().enumerate() {
             let pick = |idx: u64, dual: bool| -> Vec<f64> {
@@ -290,27 +320,22 @@ impl Space for ScalingPoints {
         format!("scaling-points-n{}-[{}]{}", self.n, self.cones.iter().map(|c| c.tag()).collect::<Vec<_>>().join(","), if self.static_reg { "" } else { "-noreg" })
     }
     fn size(&self) -> u64 {
-        self.npts() * self.npts() * 3
+        self.npts() * self.npts() * 3 * self.nhist()
     }
     fn describe(&self, id: u64) -> Value {
         let (s, z, mu) = self.points(id);
-        json!({"cones": self.cones.iter().map(|c| c.tag()).collect::<Vec<_>>(), "s": s, "z": z, "mu": mu, "static_regularization": self.static_reg})
+        let hist: Vec<Value> = self.history(id).iter().map(|o| match o { None => json!("set_identity_scaling"), Some((s, z, mu)) => json!({"update_scaling": {"s": s, "z": z, "mu": mu}}) }).collect();
+        json!({"cones": self.cones.iter().map(|c| c.tag()).collect::<Vec<_>>(), "s": s, "z": z, "mu": mu, "static_regularization": self.static_reg, "history": hist})
     }
     fn bound(&self) -> Value {
-        json!({"points_per_side": self.npts(), "mu": [1.0,1e-4,1e2]})
+        json!({"points_per_side": self.npts(), "mu": [1.0,1e-4,1e2], "histories": "U(a) | U(b)U(a) | U(a)U(b)U(a) | Id | U(a)Id | U(b)IdU(a) on one (cones, kkt solver) pair, kkt.update after every operation, last state judged"})
     }
     fn run(&self, id: u64, ctx: &mut Ctx) -> CaseResult {
-        let (s, z, mu) = self.points(id);
+        let hist = self.history(id);
         let (n, m) = (self.n, cones_numel(&self.cones));
         let api: Vec<_> = self.cones.iter().map(|c| c.to_api()).collect();
         let mut cones = CompositeCone::<f64>::new(&api);
         let strategy = if cones.allows_primal_dual_scaling() { ScalingStrategy::PrimalDual } else { ScalingStrategy::Dual };
-        // nonsymmetric lattice points can sit on the boundary (theta = 1-1e-6 is interior; theta handled by predicates)
-        let ok = guarded(|| cones.update_scaling(&s, &z, mu, strategy)).map_err(|e| Violation::new("update_scaling-panics", e))?;
-        if !ok {
-            ctx.outcome("scaling-rejected(skipped)");
-            return Ok(());
-        }
         // a small PSD P and a dense A with identifiable values
         let mut pd = Dense::zeros(n, n);
         // positive semidefinite, with a structurally missing diagonal entry in the last column
@@ -327,9 +352,24 @@ impl Space for ScalingPoints {
         st.direct_solve_method = "qdldl".to_string();
         st.static_regularization_enable = self.static_reg;
         let mut kkt = DirectLDLKKTSolver::<f64>::new(&pc, &ac, &cones, m, n, &st);
-        let _ok = guarded(|| kkt.update(&cones, &st)).map_err(|e| Violation::new("kkt-update-panics", e))?;
+        for op in &hist {
+            match op {
+                None => {
+                    guarded(|| cones.set_identity_scaling()).map_err(|e| Violation::new("set_identity_scaling-panics", e))?;
+                }
+                Some((s, z, mu)) => {
+                    // nonsymmetric lattice points can sit on the boundary (theta = 1-1e-6 is interior; theta handled by predicates)
+                    let ok = guarded(|| cones.update_scaling(s, z, *mu, strategy)).map_err(|e| Violation::new("update_scaling-panics", e))?;
+                    if !ok {
+                        ctx.outcome("scaling-rejected(skipped)");
+                        return Ok(());
+                    }
+                }
+            }
+            let _ok = guarded(|| kkt.update(&cones, &st)).map_err(|e| Violation::new("kkt-update-panics", e))?;
+            ctx.transitions += 2;
+        }
         let snap = kkt.verif_snapshot().ok_or_else(|| Violation::new("machinery-no-snapshot", ""))?;
-        ctx.transitions += 2;
         let pdim = snap.p;
         let big = n + m + pdim;
         // dense symmetric K from the stored triangle
